@@ -89,26 +89,31 @@ def _instantiate(fa: Term, witnesses: list, sa: SetAlg) -> list:
     body = [c for c in conds if c[0] != "iter-elem"]
     subs: list = []
 
-    def rec(i: int, sub: dict) -> None:
+    def rec(i: int, sub: dict, prem: tuple) -> None:
+        if len(subs) >= 24:
+            return
         if i == len(binders):
-            subs.append(sub)
+            subs.append((sub, prem))
             return
         p, src = binders[i]
-        src_s = alpha_normalise(sa.canon(subst(src, sub)))
+        src_i = subst(src, sub)
+        src_s = alpha_normalise(sa.canon(src_i))
         for wp, wsrc in witnesses:
-            if alpha_normalise(sa.canon(wsrc)) != src_s:
-                continue
             pv, wv = _pat_vars(p), _pat_vars(wp)
             if len(pv) != len(wv) or (p[0] != wp[0]):
                 continue
             s2 = dict(sub)
             s2.update(dict(zip(pv, wv)))
-            rec(i + 1, s2)
+            if alpha_normalise(sa.canon(wsrc)) == src_s:
+                rec(i + 1, s2, prem)
+            else:
+                # any term may be used to instantiate "no element of src satisfies ...": the instance then carries the premise "w is in src"
+                rec(i + 1, s2, prem + (("in", wp, src_i),))
 
-    rec(0, {})
+    rec(0, {}, ())
     out = []
-    for sub in subs[:16]:
-        out.append(f_not(f_and(*[sa.cond(sa.rewrite(subst(c, sub))) for c in body])))
+    for sub, prem in subs[:24]:
+        out.append(f_not(f_and(*[sa.cond(sa.rewrite(c)) for c in prem], *[sa.cond(sa.rewrite(subst(c, sub))) for c in body])))
     return out
 
 
@@ -511,7 +516,8 @@ def evaluate(model: Model, qname: str, mk_ev: Callable[[], Evaluator], types: di
 
 def compare_with_reference(model: Model, impl_q: str, ref_q: str, types: dict[str, Any], mk_ev: Callable[[], Evaluator], sa: SetAlg,
                            post: Callable[[Term], Term] | None = None, ignore_raises: bool = False, ref_types: dict[str, Any] | None = None,
-                           infeasible: Callable[[Path], bool] | None = None, impl_func: Func | None = None, ref_func: Func | None = None):
+                           infeasible: Callable[[Path], bool] | None = None, impl_func: Func | None = None, ref_func: Func | None = None,
+                           alias: dict | None = None):
     """Return (impl_func, verdict, detail, sample) with verdict in PROVEN / REFUTED / UNKNOWN."""
     _MODEL[0] = model
     f, ev_i, pi = evaluate(model, impl_q, mk_ev, types, func=impl_func)
@@ -526,6 +532,17 @@ def compare_with_reference(model: Model, impl_q: str, ref_q: str, types: dict[st
     pi, pr = normalise_items(pi), normalise_items(pr)
     pi, pr = resolve_ites(pi), resolve_ites(pr)
     pi, pr = expand_quantifiers(pi, ev_i), expand_quantifiers(pr, ev_r)
+    if alias:
+        # the definition's name for a helper stands for the routine the repository uses in that role (found by its position in the call graph)
+        from dataclasses import replace as _replace
+
+        def _ren(t):
+            def fn(s_):
+                if s_[0] == "call" and isinstance(s_[1], str) and s_[1] in alias:
+                    return ("call", alias[s_[1]]) + tuple(s_[2:])
+                return None
+            return mapterm(t, fn)
+        pr = [_replace(p, conds=tuple(_ren(c) for c in p.conds), value=_ren(p.value) if p.kind == "return" else p.value) for p in pr]
     if infeasible is not None:
         pi = [p for p in pi if not infeasible(p)]
         pr = [p for p in pr if not infeasible(p)]
@@ -590,6 +607,19 @@ def compare_with_reference(model: Model, impl_q: str, ref_q: str, types: dict[st
 def _sh(x: Any) -> str:
     s = x if isinstance(x, str) else show(x)
     return s if len(s) <= 420 else s[:419] + "…"
+
+
+def private_callees(model: Model, f: Func, public: set) -> list:
+    """Module-level routines of f's own module that f calls directly and that are not public anchors (helpers, whatever they are called)."""
+    import ast as _ast
+
+    out = []
+    for n in _ast.walk(f.node):
+        if isinstance(n, _ast.Call) and isinstance(n.func, _ast.Name):
+            r = model.resolve_name(f.module, n.func.id)
+            if isinstance(r, Func) and r.module is f.module and r.qname not in public and r.qname != f.qname and r.cls is None and r.qname not in out:
+                out.append(r.qname)
+    return out
 
 
 def load_reference(model: Model, name: str, filename: str) -> None:
